@@ -233,16 +233,19 @@ static void runCase(const Case &cs, bool fiberMode, std::ostream &out)
 			ClockScope s(ca);
 			UInt pa = pinIn(8_b).setName("pa"); cx.pins[0] = pa;
 			ra = reg(pa); ra2 = reg(ra); c = pa ^ ra;
+			cx.outs.push_back(pinOut(ra).setName("ra"));
+			cx.outs.push_back(pinOut(ra2).setName("ra2"));
 		}
 		{
 			ClockScope s(cb);
 			UInt pb = pinIn(8_b).setName("pb"); cx.pins[1] = pb;
 			rb = reg(pb);
+			cx.outs.push_back(pinOut(rb).setName("rb"));
 		}
-		cx.outs.push_back(pinOut(ra).setName("ra"));
-		cx.outs.push_back(pinOut(ra2).setName("ra2"));
-		cx.outs.push_back(pinOut(rb).setName("rb"));
-		cx.outs.push_back(pinOut(c).setName("c"));
+		{
+			ClockScope s(ca);
+			cx.outs.push_back(pinOut(c).setName("c"));
+		}
 	}
 	design.postprocess();
 	for (auto &o : cx.outs) cx.sigs.push_back(o.node()->getDriver(0));
@@ -290,7 +293,7 @@ int main(int argc, char **argv)
 			else if (tok[0] == "until") cs.until = parseRat(tok.at(1));
 			else if (tok[0] == "end" && open) { runCase(cs, fiberMode, out); open = false; }
 		} catch (const std::exception &e) {
-			out << "case " << cs.id << "\nX harness: " << e.what() << "\nend\n"; open = false;
+			out << "X harness: " << std::string(e.what()).substr(0, 200) << "\nend\n"; open = false;
 		}
 	}
 	return 0;
